@@ -145,6 +145,18 @@ class Namespace(MutableMapping):
         else: # refers to variable outside the function being examined
             self.names[name] = Name(name)
 
+    def get_enclosing(self, name):
+        """The value ``name`` has in an enclosing namespace, if that is
+        where it is looked up from here."""
+        if name in self.names or name in self.nonlocals:
+            return None
+        ns = self.parent
+        while ns is not None:
+            if name in ns.names:
+                return ns.names[name]
+            ns = ns.parent
+        return None
+
     def is_immutable_value(self, name):
         ns = self.nonlocals.get(name, self)
         return name in ns.immutables
@@ -233,12 +245,19 @@ class CallListerVisitor(ast.NodeVisitor):
         self.varargs = None
         self.varkwargs = None
 
+        self.late_tainted = []
+
         self.process_parameters(func.args, main=True)
         for stmt in func.body:
             self.visit(stmt)
+        main_calls = len(self.calls)
         for node, ns in self.to_revisit:
             self.namespace = ns
             self.process_Call(node)
+        # a nested function can run before any call of the main body:
+        # what it taints was never safe to forward from there either
+        for i, call in enumerate(self.calls[:main_calls]):
+            self.calls[i] = self.recheck_taint(call)
 
     def process_parameters(self, args, main=False):
         for arg in getattr(args, 'posonlyargs', []) + args.args:
@@ -353,7 +372,16 @@ class CallListerVisitor(ast.NodeVisitor):
     def visit_Name(self, node):
         immutable = self.namespace.is_immutable_value(node.id)
         if not (immutable and isinstance(node.ctx, ast.Load)):
-            self.namespace[node.id] = Unknown(node)
+            outer = None
+            if isinstance(node.ctx, ast.Load):
+                outer = self.namespace.get_enclosing(node.id)
+            if isinstance(outer, Marker):
+                # a nested function reading a variable of an enclosing one
+                # can do anything to its value, whenever it runs
+                outer.tainted = node
+                self.late_tainted.append(outer)
+            else:
+                self.namespace[node.id] = Unknown(node)
 
     def visit_Attribute(self, node):
         pass
@@ -373,7 +401,10 @@ class CallListerVisitor(ast.NodeVisitor):
             while isinstance(instance, Attribute):
                 instance = instance.value
             if isinstance(instance, Arg):
-                self.namespace[instance.name].tainted = node
+                marker = self.namespace[instance.name]
+                marker.tainted = node
+                if self.namespace.parent is not None:
+                    self.late_tainted.append(marker)
         args = [self.resolve_name(arg) for arg in node.args
                 if not isinstance(arg, Starred)]
         kwargs = dict(
@@ -391,6 +422,21 @@ class CallListerVisitor(ast.NodeVisitor):
             wrapped, args, kwargs, varargs, varkwargs,
             use_varargs, use_varkwargs,
             hide_args, hide_kwargs))
+
+    def recheck_taint(self, call):
+        varargs, varkwargs = call.varargs, call.varkwargs
+        if any(varargs is marker for marker in self.late_tainted):
+            varargs = varargs.get_untainted()
+        if any(varkwargs is marker for marker in self.late_tainted):
+            varkwargs = varkwargs.get_untainted()
+        use_varargs, hide_args = \
+            self.has_hide_starargs(varargs, self.varargs)
+        use_varkwargs, hide_kwargs = \
+            self.has_hide_starargs(varkwargs, self.varkwargs)
+        return call._replace(
+            varargs=varargs, varkwargs=varkwargs,
+            use_varargs=use_varargs, use_varkwargs=use_varkwargs,
+            hide_args=hide_args, hide_kwargs=hide_kwargs)
 
     def visit_Call(self, node):
         if self.namespace.parent is None:
